@@ -154,6 +154,10 @@ pub fn case(ctx: &mut Ctx, phases: &str) {
                 out.push(format!("{}#", install_race(progs.parse().unwrap())));
                 continue;
             }
+            if logger == "Y" {
+                out.push(format!("{}#", removal_fence(progs.parse().unwrap())));
+                continue;
+            }
             let progs: Vec<String> = progs.split('/').map(|s| s.to_string()).collect();
             // S: a live logger whose queue holds 2 events and whose consumer starts late (callers must wait, not lose events)
             // X: as S with a queue of one, and the guard is dropped while a thread is still blocked inside a logging call
@@ -225,6 +229,47 @@ fn install_race(rounds: u64) -> String {
     format!("lost={lost},panics={panics},refused={refused}")
 }
 
+/// `rounds` times: a logger whose one-slot queue is full, a thread inside a logging call that waits for room, and the owner
+/// removing the logger (dropping its guard).  Once the removal has returned, nothing more may arrive at the removed logger
+/// (an owner that drains its receiver after removing the logger must have seen every event).
+fn removal_fence(rounds: u64) -> String {
+    let mut late = 0u64;
+    for round in 0..rounds {
+        let (tx, rx) = sync_channel::<LogEvent>(1);
+        let Ok(guard) = set_global_logger(tx.clone()) else { return "refused".to_string() };
+        let _ = tx.try_send(LogEvent::new(servlin::log::Level::Info, TagList::new()));
+        let worker = std::thread::spawn(|| { let _ = servlin::log::info("in-flight", TagList::new()); });
+        std::thread::sleep(std::time::Duration::from_millis(15 + round % 3 * 5));
+        let (done_tx, done_rx) = std::sync::mpsc::channel::<()>();
+        let remover = std::thread::spawn(move || { drop(guard); let _ = done_tx.send(()); });
+        // an implementation may make the removal wait for the call in flight: then it returns only after room has been made
+        let mut removed = done_rx.recv_timeout(std::time::Duration::from_millis(40)).is_ok();
+        let mut seen_before = 0;
+        if !removed {
+            if rx.recv_timeout(std::time::Duration::from_millis(500)).is_ok() { seen_before += 1; }
+            removed = done_rx.recv_timeout(std::time::Duration::from_secs(3)).is_ok();
+        }
+        // everything delivered up to the removal
+        std::thread::sleep(std::time::Duration::from_millis(5));
+        seen_before += rx.try_iter().count();
+        // ... and what still arrives afterwards
+        let mut after = 0;
+        let t0 = std::time::Instant::now();
+        while t0.elapsed() < std::time::Duration::from_millis(120) {
+            after += rx.try_iter().count();
+            std::thread::sleep(std::time::Duration::from_millis(5));
+        }
+        if !removed || after > 0 { late += 1; }
+        let _ = seen_before;
+        drop(rx);
+        let _ = worker.join();
+        let _ = remover.join();
+        drop(tx);
+        if servlin::log::internal::lock_global_logger().is_some() { *servlin::log::internal::lock_global_logger() = servlin::log::internal::GlobalLoggerState::None; }
+    }
+    format!("late={late}")
+}
+
 fn h(s: &str) -> String { hex(s.as_bytes()) }
 
 pub fn run(ctx: &mut Ctx) {
@@ -277,6 +322,15 @@ pub fn run(ctx: &mut Ctx) {
     }
     // a thread dies while holding the global logger's handle; the installed logger keeps receiving, a later one can be installed
     if ctx.mine(n + 2) { case(ctx, &format!("A@l{}:{}:,z,l{}:{}:/l{}:{}:|A@l{}:{}:|N@l{}:{}:", "i", h("t0-0"), "e", h("t0-1"), "i", h("t1-0"), "i", h("t0-2"), "i", h("t0-3"))); }
+    // long values (a logged body, a backtrace): messages of 16383..16385 and 40000 bytes, a 20000-byte call tag under a 32002-byte thread tag
+    if ctx.mine(n + 5) {
+        let big = |k: usize| h(&"v".repeat(k));
+        let msg = |i: usize, k: usize| h(&format!("t0-{i}{}", "v".repeat(k - 4)));
+        case(ctx, &format!("A@l{}:{}:,l{}:{}:,l{}:{}:,a{}={},l{}:{}:{}={},we:GET:{}:P:500:0::{}", "i", msg(0, 16383), "i", msg(1, 16384), "e", msg(2, 16385), h("k1"), big(32002), "i", msg(3, 40000), h("k2"), big(20000), h("/t0/9"), big(40000)));
+    }
+    // removal while a call is in flight, alone and between ordinary phases
+    if ctx.mine(n + 3) { case(ctx, "Y@6"); }
+    if ctx.mine(n + 4) { case(ctx, &format!("A@l{}:{}:|Y@3|A@l{}:{}:", "i", h("t0-0"), "i", h("t0-1"))); }
     // the install race, alone and after ordinary phases
     let rounds = if ctx.thorough() { 1200 } else { 280 };
     if ctx.mine(n) { case(ctx, &format!("R@{rounds}")); }
